@@ -8,6 +8,7 @@ Jobs
   produce : single uninterrupted run(T); then for every requested step boundary k a fresh seeded run(b_k),
             save_state to a file, and the in-memory continuation run(T - b_k)
   resume  : disturb the process-global generator, load_state the file, continue with run(N2)
+  repeat  : the replay job twice in a row in one interpreter
   history : first run other problems with the library-default operators in this interpreter, then the replay job
 """
 import json
@@ -129,11 +130,19 @@ def job_history(job):
     return out
 
 
+def job_repeat(job):
+    """the same seeded configuration twice in a row in THIS interpreter (re-seeded, fresh algorithm object each time)"""
+    first = job_replay(job)
+    second = job_replay(job)
+    return {"runs": first["runs"], "runs2": second["runs"]}
+
+
 def job_replay(job):
     out = []
-    for cfg in job["configs"]:
+    for ci, cfg in enumerate(job["configs"]):
         try:
-            T = pilot_T(cfg, job["K"])
+            # budget given by the parent (taken from the fresh-interpreter run) -> no pilot run in this interpreter
+            T = job["T"][ci] if job.get("T") else pilot_T(cfg, job["K"])
             alg, _ = build(cfg)
             sizes = run_logged(alg, T)
             out.append({"T": T, "sizes": sizes, "sig": signature(alg)})
@@ -196,7 +205,7 @@ def job_resume(job):
 def main():
     job = json.load(open(sys.argv[1]))
     try:
-        res = {"replay": job_replay, "produce": job_produce, "resume": job_resume, "history": job_history}[job["job"]](job)
+        res = {"replay": job_replay, "produce": job_produce, "resume": job_resume, "history": job_history, "repeat": job_repeat}[job["job"]](job)
     except Exception as e:  # noqa: BLE001
         import traceback
         res = {"error": "%s: %s" % (type(e).__name__, e), "trace": traceback.format_exc()[-1500:]}
